@@ -148,7 +148,7 @@ def jsonify(v):
         return {"s": v.s, "p": v.p, "k": v.k}
     if isinstance(v, Node):
         return {"f": v.f, "a": [jsonify(x) for x in v.a]}
-    if isinstance(v, bool) or v is None:
+    if isinstance(v, (bool, str)) or v is None:
         return v
     if isinstance(v, int):
         return v
@@ -215,6 +215,14 @@ class ClsSource(_ClsBase):
     @property
     def released(self):
         return self.state in ("exhausted", "closed")
+
+
+class ClsSourceTruthyClose(ClsSource):
+    """... whose aclose() returns a truthy value (nothing may be read into that)"""
+
+    async def aclose(self):
+        await super().aclose()
+        return True
 
 
 class ClsSourceNoClose(_ClsBase):
@@ -327,6 +335,9 @@ def make_source(flavour, rec, idx, items):
     if flavour == "cls":
         s = ClsSource(rec, idx, items)
         return s, s
+    if flavour == "clstruthy":
+        s = ClsSourceTruthyClose(rec, idx, items)
+        return s, s
     if flavour == "clsnoclose":
         s = ClsSourceNoClose(rec, idx, items)
         return s, s
@@ -349,7 +360,7 @@ ASYNC_ITER_FLAVOURS = ("cls", "agen")  # flavours that own something to release
 
 # --------------------------------------------------------------------------- callables
 
-FLAVOURS_CALL = ("asyncdef", "def", "partial", "obj")
+FLAVOURS_CALL = ("asyncdef", "def", "partial", "obj", "aw")
 
 
 def _semantics(rec, name):
@@ -394,6 +405,18 @@ def make_callable(flavour, rec: Recorder, name, sem=None):
             return body(*a)
 
         return functools.partial(af2, None)
+    if flavour == "aw":
+        class Awaitable_:      # an awaitable that is no coroutine (like a Future)
+            def __init__(self, coro):
+                self.coro = coro
+
+            def __await__(self):
+                return self.coro.__await__()
+
+        def faw(*a):
+            return Awaitable_(af(*a))
+
+        return faw
     if flavour == "obj":
         class CallObj:
             def __call__(self, *a):
